@@ -612,6 +612,15 @@ def _pushes_pops(block, todo="todo", stack="stack"):
     pops = []
     for s in A.stmts_of(block):
         e = A.strip(A.stmt_expr(s) or {}) if s.get("k") != "Let" else None
+        if e is not None and e.get("k") == "For" and A.strip(e["iter"]).get("k") == "Array" and A.binding_name(e["pat"]):
+            # `for c in [x, y, z] { todo.push(Action::Down(c)); }` is the three pushes in that order
+            inner = A.stmts_of(e["body"])
+            ie = A.strip(A.stmt_expr(inner[0]) or {}) if len(inner) == 1 else {}
+            if ie.get("k") == "MethodCall" and ie["method"] == "push" and A.ident(A.strip(ie["recv"])) == todo:
+                a = A.strip(ie["args"][0])
+                if a.get("k") == "Call" and (A.path_segs(a["func"]) or [])[-1:] == ["Down"] and A.ident(A.strip(a["args"][0])) == A.binding_name(e["pat"]):
+                    downs += [A.ftxt(A.strip(x)).lstrip("*") for x in A.strip(e["iter"])["elems"]]
+            continue
         if e is not None and e.get("k") == "MethodCall" and e["method"] == "push" and A.ident(A.strip(e["recv"])) == todo:
             a = A.strip(e["args"][0])
             if a.get("k") == "Call" and (A.path_segs(a["func"]) or [])[-1:] == ["Down"]:
